@@ -174,11 +174,20 @@ def _kernel(ck: Checker, prog: Program, name: str):
     cases = []
     col_name = None
     col_ok = True
+    # the output array: named by the column stores; when it is allocated with zeros, a pass that stores nothing leaves 0 there
+    for l in outer:
+        for e in l.events:
+            if e[0] == "store" and isinstance(e[3], ast.Assign) and isinstance(e[3].targets[0], ast.Subscript) and isinstance(e[3].targets[0].value, ast.Name):
+                col_name = e[3].targets[0].value.id
+    zero_default = col_name is not None and pre[0].snaps[id(o)][0].get(col_name) == 0
     for l in with_loop:
         n0 = l.snaps[id(i)][1]
         post = Leaf(l.conds[n0:], l.env, l.events)
         lits = literals(post)
         stores = [e for e in l.events if e[0] == "store"]
+        if not stores and zero_default and l.exit in ("continue", "fall"):
+            cases += [(lits, sp.Integer(0))]
+            continue
         if len(stores) != 1:
             col_ok = False
             continue
@@ -200,7 +209,8 @@ def _kernel(ck: Checker, prog: Program, name: str):
     small = False
     for l in without:
         stores = [e for e in l.events if e[0] == "store"]
-        if same_literal_set(literals(l), [sp.Gt(sp.Rational(1, 1000000), FC)]) and len(stores) == 1 and stores[0][2] == 0 and l.exit in ("continue", "fall"):
+        if same_literal_set(literals(l), [sp.Gt(sp.Rational(1, 1000000), FC)]) and l.exit in ("continue", "fall") \
+                and ((len(stores) == 1 and stores[0][2] == 0) or (not stores and zero_default)):
             small = True
     if small:
         ck.ok("C02.R2", q, "fc < 1e-6 -> 0", nontrivial=False)
